@@ -25,11 +25,11 @@ def lookIdx (T : Tables) (look : Option Tok) : Nat := T.termIdx (lookName look)
 
 /-- the invariant of the run: the initial configuration, or a top value whose shape is allowed for
 (state, look-ahead) over a stack that follows the certificate -/
-inductive Inv (T : Tables) (C : Cert) : Cfg → Option Tok → Prop
-  | init (s0 : Nat) (look : Option Tok) : Inv T C { states := [s0], vals := [] } look
+inductive CertInv (T : Tables) (C : Cert) : Cfg → Option Tok → Prop
+  | init (s0 : Nat) (look : Option Tok) : CertInv T C { states := [s0], vals := [] } look
   | push (s : Nat) (ss : List Nat) (v : Val) (vs : List Val) (look : Option Tok) :
       HasShape v (C.top s (lookIdx T look)) → Below C s ss vs →
-      Inv T C { states := s :: ss, vals := v :: vs } look
+      CertInv T C { states := s :: ss, vals := v :: vs } look
 
 theorem lookName_eq (look : Option Tok) : lookName look = lookNameK (look.map (·.kind)) := by
   cases look <;> rfl
@@ -152,8 +152,8 @@ theorem toVal_hasShape (t : Tok) {m : Nat} (h : m.testBit (tokValShape t.kind) =
   cases k <;> exact ⟨by simp [Tok.toVal, ValOK, CanonAt], by simpa [Tok.toVal, shapeOf, shapeOfTree, tokValShape] using h⟩
 
 theorem inv_shift {T : Tables} {C : Cert} (hC : certOK T C = true) {c c' : Cfg} {t : Tok}
-    (hI : Inv T C c (some t)) (hs : step T c (some t) = .shift c') (look' : Option Tok) :
-    Inv T C c' look' := by
+    (hI : CertInv T C c (some t)) (hs : step T c (some t) = .shift c') (look' : Option Tok) :
+    CertInv T C c' look' := by
   obtain ⟨t', a, hl, ha, hpos, rfl⟩ := step_shift hs
   cases hl
   have hcell := checkCell_of_certOK hC (o := some t.kind) ha
@@ -173,7 +173,7 @@ theorem inv_shift {T : Tables} {C : Cert} (hC : certOK T C = true) {c c' : Cfg} 
     exact ⟨m, hm, hasShape_mono hv hsub, hb⟩
 
 /-- the reduce branch of `step`, with the production that was used -/
-theorem step_reduce' {T : Tables} {c c' : Cfg} {look : Option Tok} (h : step T c look = .reduce c') :
+theorem step_reduce_cert {T : Tables} {c c' : Cfg} {look : Option Tok} (h : step T c look = .reduce c') :
     ∃ (a : Int) (lhs f : String) (rhs : List String) (v : Val) (g : Int),
       T.act? (c.states.headD 0) (lookName look) = some a ∧ ¬ a > 0 ∧ a < 0 ∧
       T.prods.getD (-a).toNat ("", [], "") = (lhs, rhs, f) ∧ rhs.length ≤ c.vals.length ∧
@@ -208,8 +208,8 @@ theorem step_reduce' {T : Tables} {c c' : Cfg} {look : Option Tok} (h : step T c
       · split at h <;> cases h
 
 theorem inv_reduce {T : Tables} {C : Cert} (hC : certOK T C = true) {c c' : Cfg} {look : Option Tok}
-    (hI : Inv T C c look) (hs : step T c look = .reduce c') : Inv T C c' look := by
-  obtain ⟨a, lhs, f, rhs, vnew, g, ha, hnpos, hneg, hp, hlen, hact, hg, rfl⟩ := step_reduce' hs
+    (hI : CertInv T C c look) (hs : step T c look = .reduce c') : CertInv T C c' look := by
+  obtain ⟨a, lhs, f, rhs, vnew, g, ha, hnpos, hneg, hp, hlen, hact, hg, rfl⟩ := step_reduce_cert hs
   cases hn : rhs.length with
   | zero => rw [hn] at hact; exact absurd hact (act_nil f vnew)
   | succ n =>
@@ -278,7 +278,7 @@ theorem runLoop_canon {T : Tables} {C : Cert} (hC : certOK T C = true) (fuel : N
     (toks : List Tok) (lerr : Option LexErr) (v : Val)
     (h : runLoop T fuel { states := [0], vals := [] } toks lerr = .ok v) :
     ∃ t, v = .item t ∧ CanonAt false t = true := by
-  obtain ⟨c', toks', hI, hacc, _⟩ := runLoop_ok (T := T) (P := fun c tk => Inv T C c tk.head?)
+  obtain ⟨c', toks', hI, hacc, _⟩ := runLoop_ok (T := T) (P := fun c tk => CertInv T C c tk.head?)
     (fun c t tk c' hP hs => inv_shift hC hP hs _)
     (fun c tk c' hP hs => inv_reduce hC hP hs)
     fuel { states := [0], vals := [] } toks lerr v (.init 0 _) h
